@@ -243,12 +243,15 @@ Record inv1 (s : gstate) : Prop := {
 Arguments i_CV [s] i j u c cl t k' k _ _ _ _ _ _.
 Arguments i_AN [s] i j t k' k _ _.
 
+(* P is a committed prefix: the first k entries of the leader log of t, ending in a term-t entry,
+   acknowledged by a majority of a voter list that was used *)
+Definition cpre (s : gstate) (P : list entry) : Prop :=
+  exists V t k, In V (quorums s) /\ majority V (ackedb s t k) = true /\
+                k <= length (tlogs s t) /\ endst (firstn k (tlogs s t)) t /\ P = firstn k (tlogs s t).
+
 (* the second group: commitment *)
 Record inv2 (s : gstate) : Prop := {
-  i_GC : gcommit s = [] \/
-         exists V t k, In V (quorums s) /\ majority V (ackedb s t k) = true /\
-                       k <= length (tlogs s t) /\ endst (firstn k (tlogs s t)) t /\
-                       gcommit s = firstn k (tlogs s t);
+  i_GC : gcommit s = [] \/ cpre s (gcommit s);
   i_AP : forall j, commit (nodes s j) <= length (log (nodes s j)) /\
                    prefix (firstn (commit (nodes s j)) (log (nodes s j))) (gcommit s);
   i_APP : forall j, app s j <= length (gcommit s)
